@@ -475,6 +475,28 @@ def coq_tables(T):
 PRELUDE = ("From TskVerif Require Import Base.Common C14.Model.\n"
            "Open Scope Z_scope.")
 
+_CODES = {}
+
+
+def err_code(name):
+    """Numeric value of a TSK_ERR_* name, read from the core.h of the tree under test."""
+    if not _CODES:
+        import os
+        import re
+        from harness import common
+        src = open(os.path.join(common.REPO, "c", "tskit", "core.h")).read()
+        for m in re.finditer(r"^#define\s+(TSK_ERR_\w+)\s+\(?(-\d+)\)?\s*$", src, re.M):
+            _CODES[m.group(1)] = int(m.group(2))
+    return _CODES.get(name)
+
+
+def coq_expect_error(call, err):
+    """model must fail; with the same library error code when the implementation named one"""
+    code = err_code(err.get("code", "")) if isinstance(err, dict) else None
+    if code is None:
+        return "negb (is_ok (%s))" % call
+    return "res_err_is (%s) %s" % (call, cz(code))
+
 
 # ---------------------------------------------------------------------------------------
 # Family: subset
@@ -616,7 +638,7 @@ class Subset(Family):
                                        "true" if not case["ru"] else "false",
                                        "true" if not case["rp"] else "false")
         if "error" in obs["ll"]:
-            return "negb (is_ok (%s))" % call
+            return coq_expect_error(call, obs["ll"])
         return "res_tables_eqb (%s) %s" % (call, coq_tables(obs["ll"]))
 
     def nontrivial(self, case, obs):
@@ -885,7 +907,7 @@ class Union(Family):
                                          "true" if case["check"] else "false",
                                          "true" if case["add_pops"] else "false")
         if "error" in got:
-            return "negb (is_ok (%s))" % call
+            return coq_expect_error(call, got)
         return "res_tables_eqb (%s) %s" % (call, coq_tables(got))
 
     def nontrivial(self, case, obs):
@@ -1115,7 +1137,12 @@ class Malformed(Family):
                                                "true" if case["check"] else "false")
         else:
             return None
-        return "Bool.eqb (is_ok (%s)) %s" % (call, "true" if obs["result"] == "accepted" else "false")
+        if obs["result"] == "accepted":
+            return "is_ok (%s)" % call
+        if case["kind"] == "union-badmap" and obs["result"].get("code") not in (
+                "TSK_ERR_UNION_BAD_MAP", "TSK_ERR_UNION_DIFF_HISTORIES"):
+            return None      # self-union with an arbitrary map: tree-validity errors are C02's subject
+        return coq_expect_error(call, obs["result"])
 
     def describe(self, case, obs):
         return {"kind": case["kind"], "result": obs["result"] if obs["result"] == "accepted" else obs["result"]["code"] or obs["result"]["error"]}
